@@ -6,7 +6,7 @@ the supplied values through the projection of drivers/walk.py.
 import math
 
 from ..common import frame
-from . import history, walk
+from . import envrot, history, walk
 from .frames import BAD, classify_exc, parse_call
 
 
@@ -41,8 +41,20 @@ def construct(m, cls, mid, pbf, kwargs):
         kwargs = dict(items)
     if (cls + mid + len(kwargs)) % 2:
         pbf = bool(pbf)
+    import copy
+
     try:
-        msg = UBXMessage(bytes([cls]), bytes([mid]), m, parsebitfield=pbf, **kwargs)
+        pristine = copy.deepcopy(kwargs)
+    except Exception:  # noqa: BLE001 - values that cannot be copied (hostile objects) are used once, as they are
+        pristine = None
+    try:
+        with envrot.hostile(envrot.key(cls, mid, len(kwargs), m)):
+            msg = UBXMessage(bytes([cls]), bytes([mid]), m, parsebitfield=pbf, **kwargs)
+            if pristine is not None and any(isinstance(v, (list, bytearray, dict)) for k, v in vars(msg).items() if not k.startswith("_")):
+                # the message hands mutable values (array attributes) to its owner: an owner that changed them in place builds the
+                # same message again from (a pristine copy of) the same keywords - the observed construction is that second one
+                envrot.taint(msg)
+                msg = UBXMessage(bytes([cls]), bytes([mid]), m, parsebitfield=pbf, **pristine)
     except Exception as ex:  # noqa: BLE001
         return None, classify_build_exc(ex)
     return msg, "msg"
@@ -231,7 +243,9 @@ def obs_c04(case):
           "built": ""}
     kw = {}
     if case["route"] == "payload":
-        kw = {"payload": bytes.fromhex(case["P"])}
+        # the raw payload as the buffer types I/O code holds it in: bytes, bytearray (recv_into / readinto), memoryview
+        raw = bytes.fromhex(case["P"])
+        kw = {"payload": (raw, bytearray(raw), memoryview(raw))[(len(raw) + mid) % 3] if case.get("buf", 1) else raw}
     elif case["route"] == "kw":
         kw = dict(case["kwargs"])
         for k, v in list(kw.items()):
@@ -275,7 +289,7 @@ def obs_c04(case):
     ev["built"] = "msg"
     ev["ser"] = s0
     pl = msg0.payload
-    ev["payload"] = list(pl) if isinstance(pl, (bytes, bytearray)) else ([] if pl is None else BAD)
+    ev["payload"] = list(bytes(pl)) if isinstance(pl, (bytes, bytearray, memoryview)) else ([] if pl is None else BAD)
     ev["forms"] = [x[1] if not isinstance(x[1], str) else BAD for x in sers[1:]]
     try:
         back = UBXReader.parse(bytes(s0), msgmode=m)
